@@ -26,6 +26,7 @@ func runC17(c *Ctx) {
 	ruleNoSMTPErrorMutation(c)
 	ruleNoReplyAfterClose(c)
 	ruleHelloErrorNotMasked(c)
+	ruleGoCapture(c)          // the reply to BDAT LAST carries the error THIS message's Data returned: the goroutine reports through the channel it captured
 	ruleWriteDeadlineOwner(c) // a verdict that takes the backend longer than ReadTimeout is still written
 	// the error reported for a failed chunk is the one the pipe copy returned — the backend's own error comes back that
 	// way (r.CloseWithError) — and "unexpected EOF" stands in only when the copy returned none
